@@ -16,6 +16,15 @@ CHECKS = {
             "the library's own field, and energy constancy along produced trajectories. Sampling over R^6 x (0,0.5], not a proof.",
             "Trusts SymPy/NumPy/SciPy; tolerances are rounding/conditioning formulas (see vf/oracle/cr3bp.py); states within 1e-3 of a primary excluded.",
             "DESIGN.md §4 C01"),
+    "C02": ("exploration",
+            "exhaustive rooted-tree (Butcher) probe forest through the real stepping code + property-based testing on generated ODEs",
+            "All 200 rooted trees of order <= 8 (autonomous and time-leaf variants) are integrated by one step of RungeKutta/FixedRK(order).integrate, the raw "
+            "step kernels (rk_embedded, rk45, dop853 incl. embedded error estimators), the RK45/DOP853 dense outputs and the CM map's table selector; the returned "
+            "elementary weights must equal 1/gamma up to the declared order (exhaustive for the order-condition clause, a 1e-9 coefficient perturbation is visible). "
+            "Generated non-linear non-autonomous vector fields and polynomial Hamiltonians (fast path) give observed order by step halving and err/tol bounds against a "
+            "1e-13 SciPy reference. The ODE layer is sampling.",
+            "Trusts SciPy DOP853 at 1e-13 as reference and its RK45/DOP853 as calibration of the tolerance multiple; order criterion p-0.5 on the finest halvings.",
+            "DESIGN.md §4 C02"),
     "C19": ("exploration",
             "property-based testing (Hypothesis) with brute-force and exact-rational geometric oracle",
             "Generated cloud pairs / thresholds / segment pairs (lattice ties, parallel, collinear, zero-length, near-parallel) through "
